@@ -32,6 +32,8 @@ RULE = (
     "contextName equal the model's current configuration; after each block exit "
     "client.config equals the model's restored snapshot; unknown settings raise and change "
     "nothing. Distinct by history shape (step kinds + setting names + nesting)."
+    " Context engine ids / names also of zero octets only, with a leading zero octet, of ASCI"
+    "I digits."
 )
 ASSUMPTIONS = [
     "a configure() inside a reconfigure() block is undone when the block exits (the block restores the snapshot taken at entry)",
